@@ -1,7 +1,8 @@
 (* Properties_C08.v — property C08 (bound enforcement and samplers keep states inside the space) for R^n, SO(2),
    time, discrete and nested weighted compounds.  Statements only. *)
 From Coq Require Import List Bool Arith Reals Floats.
-From OmplV Require Import SpacesModel SpacesReal SpacesFloat.
+From Coq Require Import ZArith.
+From OmplV Require Import SpacesModel SpacesReal SpacesFloat VssModel VssProofs.
 Import ListNotations.
 Local Open Scope R_scope.
 
@@ -46,6 +47,46 @@ Print Assumptions C08_rv_uniform_in_bounds.
 Print Assumptions C08_rv_near_in_bounds.
 Print Assumptions C08_rv_gaussian_in_bounds.
 Print Assumptions C08_so2_samplers_in_bounds.
+
+(* ---- valid-state samplers: for every underlying sampler behaviour (tape of drawn states), validity predicate,
+   number of attempts.  SpaceInformation::isValid is the user's checker alone, so in-bounds-ness of a returned state
+   is inherited: P (= satisfiesBounds) holds for every draw (first half of C08) and is preserved by interpolation
+   (C07) and by the motion validator's last valid state (C05). *)
+Section C08_valid_samplers.
+  Variable St : Type.
+  Variables (chk : St -> bool) (clr : St -> Z) (mid lastv : St -> St -> St) (P : St -> Prop).
+  Theorem C08_valid_samplers_success_is_valid_and_in_bounds :
+    (forall temp s, chk temp = true -> chk s = false -> chk (lastv temp s) = true) ->
+    (forall temp s, P temp -> P s -> P (lastv temp s)) ->
+    (forall e s, P e -> P s -> P (mid e s)) ->
+    forall attempts improve c st tape s t, Forall P tape ->
+      (vss_uniform St chk attempts st tape = Some (true, s, t) \/
+       vss_gauss St chk attempts st tape = Some (true, s, t) \/
+       vss_obstacle St chk lastv attempts st tape = Some (true, s, t) \/
+       vss_bridge St chk mid attempts st tape = Some (true, s, t) \/
+       vss_maxclear St chk clr attempts improve st tape = Some (true, s, t) \/
+       vss_minclear St chk clr attempts c st tape = Some (true, s, t)) -> chk s = true /\ P s.
+  Proof. exact (all_samplers_success_valid_inbounds St chk clr mid lastv P). Qed.
+  Theorem C08_uniform_valid_sampler_failure : forall attempts st tape s t,
+      vss_uniform St chk attempts st tape = Some (false, s, t) ->
+      exists pre, tape = pre ++ t /\ Forall (fun x => chk x = false) pre /\ length pre = Nat.max 1 attempts.
+  Proof. exact (uniform_failure_exhausted St chk). Qed.
+  Theorem C08_min_clearance_respected : forall attempts c st tape s t,
+      vss_minclear St chk clr attempts c st tape = Some (true, s, t) -> chk s = true /\ (c <= clr s)%Z /\ In s tape.
+  Proof. exact (minclear_success St chk clr). Qed.
+End C08_valid_samplers.
+Print Assumptions C08_valid_samplers_success_is_valid_and_in_bounds.
+Print Assumptions C08_uniform_valid_sampler_failure.
+Print Assumptions C08_min_clearance_respected.
+Example C08_valid_samplers_nonvacuous :
+  vss_run VUniform 3 0 0%Z [4; 8; 6; 2]%Z = Some (true, 6%Z, 3%nat) /\
+  vss_run VUniform 2 0 0%Z [4; 8; 6; 2]%Z = Some (false, 8%Z, 2%nat) /\
+  vss_run VBridge 5 0 0%Z [4; 8; 2; 8; 12]%Z = Some (true, 6%Z, 2%nat) /\
+  vss_run VGauss 3 0 0%Z [4; 8; 12; 6]%Z = Some (true, 6%Z, 4%nat) /\
+  vss_run VMaxClear 3 2 0%Z [4; 10; 6; 5]%Z = Some (true, 6%Z, 4%nat) /\
+  vss_run VMinClear 3 0 3%Z [8; 2; 10]%Z = Some (true, 10%Z, 3%nat) /\
+  vss_run VObstacle 3 0 0%Z [2; 4; 8; 6]%Z = Some (true, 6%Z, 4%nat).
+Proof. vm_compute. repeat split. Qed.
 
 Local Open Scope float_scope.
 Example C08_nonvacuous :
